@@ -302,6 +302,11 @@ func (s *Session) Observe(p interface{}, field string, write bool) {
 	if t == nil {
 		return
 	}
+	if p == nil {
+		// a package-level variable: the name alone identifies it
+		s.record(t, field, write, len(t.held) > 0)
+		return
+	}
 	if s.objIDs == nil {
 		s.objIDs = map[interface{}]int{}
 	}
